@@ -190,7 +190,7 @@ func genC05(env *core.Env, emit func(core.Case)) {
 			s.X("a syntactically valid hello that is not accepted is passed through, not aborted", fmt.Sprintf("err=%s accepted=%v", res.Err, res.Accepted))
 		}
 		emit(core.Case{Name: fmt.Sprintf("hello/%d", i), Stream: "foreign", Ops: s.Ops,
-			Sig: fmt.Sprintf("%s/keys-%s/tls13-%v/%s/e%d/tls%v/%s", echKind, keyset, tls13, sizeClass(len(rec)), min(len(h.Exts)/4, 3), tlsOK, outcome),
+			Sig:    fmt.Sprintf("%s/keys-%s/tls13-%v/%s/e%d/tls%v/%s", echKind, keyset, tls13, sizeClass(len(rec)), min(len(h.Exts)/4, 3), tlsOK, outcome),
 			Sample: map[string]any{"ech": echKind, "keys": keyset, "tls13": tls13, "record_len": len(rec), "exts": len(h.Exts), "crypto_tls_parsed": tlsOK, "outcome": outcome}})
 		env.Count(outcome)
 		if tlsOK {
